@@ -66,7 +66,7 @@ def run_case(case):
     elif kind == 'union':
         ext = rng.random() < 0.3
         sig, conds = corpus.union_base(rng, want='weak' if ext else 'strong')
-        qs = corpus.derived_queries(rng, sig, conds, 8)
+        qs = corpus.derived_queries(rng, sig, conds, 8, layers=corpus.real_partition(impl.mk_bb(sig, conds)))
         modes = [True] if ext else [False, True][:1 + (rng.random() < 0.3)]
         mk = lambda: impl.mk_bb(sig, conds)
     else:
@@ -80,7 +80,7 @@ def run_case(case):
         bb0, sig, conds = corpus.load(path)
         if not conds:
             return res
-        qs = corpus.derived_queries(rng, sig, conds, 6 if len(sig) <= 30 else 3)
+        qs = corpus.derived_queries(rng, sig, conds, 6 if len(sig) <= 30 else 3, layers=corpus.real_partition(impl.mk_bb(sig, conds)))
         modes = [False, True][:1 + (rng.random() < 0.3)]
         mk = lambda: corpus.load(path)[0]
     bump('kind', kind)
